@@ -1,3 +1,4 @@
+import Hannibal.Props.C05DCurrent
 import Hannibal.Props.C05Current
 import Hannibal.Props.C05QCurrent
 #print axioms Hannibal.C05_holds
@@ -6,3 +7,9 @@ import Hannibal.Props.C05QCurrent
 #print axioms Hannibal.C05q_holds
 #print axioms Hannibal.C05q_current
 #print axioms Hannibal.monC05q_orig
+#print axioms Hannibal.C05d_holds
+#print axioms Hannibal.C05d_current
+#print axioms Hannibal.C05df_holds
+#print axioms Hannibal.monC05d_split
+#print axioms Hannibal.drun_grun
+#print axioms Hannibal.drun_run
